@@ -38,6 +38,7 @@ def build_set(chk, wsname, structs, profile):
                           {"engine": "regmc-build", "spec": R.spec_struct(s), "errors": msgs[:5]})
         chk.states += 1
         chk.transitions += 1
+    chk.last_dropped = len(dropped)
     if dropped:
         chk.notes.append(f"{wsname}: {len(dropped)} declarations removed after rustc rejected their generated code; the remaining {len(structs) - len(dropped)} were explored")
     if not ok:
@@ -443,7 +444,7 @@ def c13(tier):
         return chk.finish()
     rep = B.run(ws, prof, 'builder', ['--full-w', 8 if tier == 'quick' else 12, '--cap', 65536 if tier == 'quick' else 1 << 22], out_name=f"report-C13-{prof}.json")
     chk.add_report(rep, f"builder:{prof}")
-    if rep['machines'] != len(structs):
+    if rep['machines'] != len(structs) - chk.last_dropped:
         core.vacuous("builder machines missing")
     chk.bounds.append("builder layouts: all compositions of N<=" + ("8" if tier == 'quick' else "10") + " bits into 1-4 fields (several declaration orders; complete / with default / read-only part / uncovered gap), "
                       "arrays of every K for bool/u1/u2/u4 on u8/u16, K in {2,3,4,5,7,8,16,32,64,128} on wide bases, multi-range / interleaved / signed / enum / nested steps, arbitrary-int bases; "
@@ -464,7 +465,7 @@ def c19(tier):
         return chk.finish()
     rep = B.run(ws, prof, 'debug', ['--full-n', 12 if tier == 'quick' else 16], out_name=f"report-C19-{prof}.json")
     chk.add_report(rep, f"debug:{prof}")
-    if rep['machines'] != len(structs):
+    if rep['machines'] != len(structs) - chk.last_dropped:
         core.vacuous("debug machines missing")
     chk.bounds.append("debug layouts over bases " + ("{u3,u8,u12,u16,u24,u32,u64,u100,u128}" if tier == 'quick' else "u1..u16 and 13 wide bases") +
                       ": single fields of every kind (bool, uN, native, signed, exhaustive enum, Option<enum>, nested debug bitfield, multi-range), windows of 2-5 fields in three declaration orders, all kinds at once (both orders), "
